@@ -7,7 +7,8 @@ COMMON = [
 ]
 
 LFO_RULE = ("exhaustive sweep of all 2^24 phase-counter values (increment 1, across the wrap), whole-cycle sweeps at 9 larger increments, "
-            "directed set_phase/reset/set_frequency scenarios at 16 sample rates and seeded random histories; every tick reads all 5 waveshapes. "
+            "directed set_phase/reset/set_frequency scenarios at 28 sample rates, closed-loop landings (the frequency is set from the counter read back so that the next tick lands exactly on 0, 2^24-1, the half cycle, table-cell boundaries and their neighbours), "
+            "seeded random histories incl. frequency nudges of a few ulps, re-quantised frequencies and (C10/C12 only) frequencies above the sample rate; every tick reads all 5 waveshapes. "
             "distinct_nontrivial = distinct (sine-table cell, increment magnitude class) pairs observed")
 
 META = {
@@ -17,7 +18,8 @@ META = {
 }
 
 ADSR_RULE = ("directed scenarios (17 (fs,T) pairs incl. T*fs<=1, =1, just above 1; gate events at every offset class of every phase; sustain and times moved in mid-phase), "
-             "seeded random histories (whole cycles, retrigger/release storms, parameter modulation, sub-sample phases, gate floods) and slow phases ticked through completely (up to 20 s at 192 kHz); "
+             "seeded random histories (whole cycles, retrigger/release storms, parameter modulation, sub-sample phases, gate floods) at 32 standard and log-uniform sample rates, slow phases ticked through completely (up to 20 s at 192 kHz), "
+             "long-count histories (7*10^4 gate cycles, 2^16 and 2^24 ticks on the plateaus) and write storms (2^8 ... 2^32 set_input writes between two ticks of a running phase); "
              "every tick is observed through value() and the verif-hooks accessors. distinct_nontrivial = distinct (event kind, phase before, phase after / table-cell octile, decade of T*fs, start-level octile) classes observed")
 MIDI_RULE = ("byte-at-a-time histories on the real receiver compared after every byte with an independent MIDI 1.0 framer + receiver specification; "
              "distinct_nontrivial = distinct (reference decoder state x byte class), (message effect x held-count bucket x priority x retrigger) and (poll kind x latch x gate) classes observed")
@@ -26,23 +28,23 @@ META.update({
     "C01": {"rule": ADSR_RULE, "assumptions": COMMON + ["phase and counter position come from the read-only hooks Adsr::verif_state()/verif_phase_bits()", "the documented RC curves are the generator's formulas of non_rust_utils/lookup_table_gen.py evaluated in f64", "monotonicity allows 4 ulp (4.8e-7) of f32 rounding; the largest dip observed is reported under monitored_maxima"]},
     "C02": {"rule": ADSR_RULE, "assumptions": COMMON + ["phase read through Adsr::verif_state()", "per-tick progress x=1/(T*fs) is integrated as an interval [x(1-2^-22)-2^-24, x(1+2^-22)]: early = ended with upper bound < 1, late = not ended with lower bound >= 1", "all four inputs are set before the first gate event (power-on parameter values are not part of the property)"]},
     "C03": {"rule": ADSR_RULE, "assumptions": COMMON + ["slope bound 1.005*S*c*x*(1+2^-22)+|ds|+4ulp with S=1.81062 (attack), 4.07463 (decay/release), c the span of the segment, x the fraction of the phase one tick covers"]},
-    "C04": {"rule": MIDI_RULE + "; workload: note-on / note-off / velocity-0 / All Notes Off on the listened channel, pools of 1..128 notes, explicit and running status, priority and retrigger switched at random, at most 32 outstanding note-ons", "assumptions": COMMON + ["histories are cut before a 33rd outstanding note-on (the property is stated up to 32)", "CC 123 is All Notes Off for any value byte"]},
-    "C05": {"rule": MIDI_RULE + "; workload: the C04 streams with edge polls interleaved (sparse at several rates, and strict = both edges after every message)", "assumptions": COMMON + ["edge getters are polled on implementation and reference at the same instant"]},
-    "C06": {"rule": MIDI_RULE + "; workload: 18 well-formed base streams x every split point x 16 channels with real-time bytes inserted, random insertions, and unstructured byte streams in four styles (uniform, status-heavy, data-heavy running status, own-channel with system bytes)", "assumptions": COMMON + ["pitch-bend scaling is taken from a table read from a fresh receiver (the scaling itself is judged by C18); framing decides which bytes form the value", "histories are cut before a 33rd outstanding note-on", "0xF9/0xFD are treated as real-time (transparent), 0xF4/0xF5 as system common (cancel running status)"]},
-    "C18": {"rule": MIDI_RULE + "; workload: 16 channels x 128 controllers x 128 values (explicit + running status, listened + foreign channel), all 16384 pitch-bend values ascending/descending, scaling tables, and controllers interleaved with note traffic", "assumptions": COMMON + ["power-on defaults are read from a freshly constructed receiver at run time"]},
+    "C04": {"rule": MIDI_RULE + "; workload: note-on / note-off / velocity-0 / All Notes Off on the listened channel, pools of 1..128 notes, explicit and running status, priority and retrigger switched at random, at most 32 outstanding note-ons; a key held under melodies of 250-70000 notes; the 32-entry buffer filled with distinct / identical keys and re-struck; pattern-repeat storms of 2^8 ... 2^20 (thorough: 2^32) note pairs, also with a key struck just before the count is reached", "assumptions": COMMON + ["histories are cut before a 33rd outstanding note-on (the property is stated up to 32)", "CC 123 is All Notes Off for any value byte"]},
+    "C05": {"rule": MIDI_RULE + "; workload: the C04 streams with edge polls interleaved (sparse at several rates, and strict = both edges after every message), note floods beyond 32 outstanding note-ons (observed-gate mode), poll-free bursts of 254-513 messages and pattern-repeat storms of 2^8 ... 2^20 (thorough: 2^32) messages between two polls", "assumptions": COMMON + ["edge getters are polled on implementation and reference at the same instant"]},
+    "C06": {"rule": MIDI_RULE + "; workload: 24 well-formed base streams x every split point x 16 channels with real-time bytes inserted, random insertions, unstructured byte streams in four styles (uniform, status-heavy, data-heavy running status, own-channel with system bytes), universal SysEx messages with arbitrary parameter bytes and device ids, RPN/NRPN/data-entry sequences, channel-mode controllers 120-127 followed by foreign-channel traffic, pattern-repeat storms", "assumptions": COMMON + ["pitch-bend scaling is taken from a table read from a fresh receiver (the scaling itself is judged by C18); framing decides which bytes form the value", "histories are cut before a 33rd outstanding note-on", "0xF9/0xFD are treated as real-time (transparent), 0xF4/0xF5 as system common (cancel running status)"]},
+    "C18": {"rule": MIDI_RULE + "; workload: 16 channels x 128 controllers x 128 values (explicit + running status, listened + foreign channel, foreign-channel traffic after every controller number), all 16384 pitch-bend values ascending/descending, scaling tables, controllers interleaved with note traffic, RPN/NRPN/data-entry sequences, pattern-repeat storms", "assumptions": COMMON + ["power-on defaults are read from a freshly constructed receiver at run time"]},
 })
 
 QUANT_RULE = ("allow/forbid/convert histories on the real quantizer with a shadow scale: directed convert-forbid-convert of the same input in every octave and pitch class, slow ramps, "
-              "sub-hysteresis noise around every chromatic boundary, jumps, random scale edits (incl. forbid-everything and note arguments > 11) and inputs in and around [0,10] V incl. NaN/inf; "
+              "sub-hysteresis noise around every chromatic boundary, jumps, random scale edits (incl. forbid-everything, duplicated and > 11 note arguments, forbid/allow of the held pitch class back to back), exact repeats of earlier inputs, inputs in and around [0,10] V incl. NaN/inf, 7*10^4-conversion runs and edit storms of 2^8 ... 2^20 (thorough: 2^31, 2^32) edit calls between two conversions; "
               "distinct_nontrivial = distinct (octave, path {kept by window, outside window, cached note forbidden, no history}, pitch class, scale-size bucket) classes observed")
 GLIDE_RULE = ("set_time/process histories on the real processor: clean steps over the (fs,t) plane (both signs, offsets), dead-band sequences (drift chains, flapping, jumps, around the band edge) with the pole estimated from the outputs after every call, "
-              "and mixed piecewise-constant / noise inputs with set_time changes at arbitrary points incl. switches to <= 4/fs in mid-glide; distinct_nontrivial = distinct (decade of t*fs, changed-mid-glide?, specified region?) and (plane cell) classes observed")
-RIBBON_RULE = ("sample histories on real controllers for 10 sample rates (buffer capacities 2..3265) and random resistor triples: presses of length L-2..L+2, 10L, taps shorter than L separated by 1..3 out-of-range samples, glitches, slides and noisy presses, "
+              "and mixed piecewise-constant / noise inputs at signal scales from 1e-30 to 3e38 with set_time changes at arbitrary points incl. switches to <= 4/fs in mid-glide, A-B-A' schedules without a sample in between, glides frozen by feeding the output back, full-scale swings, 7*10^4 set_time calls; distinct_nontrivial = distinct (decade of t*fs, changed-mid-glide?, specified region?) and (plane cell) classes observed")
+RIBBON_RULE = ("sample histories on real controllers (592 sample rates instantiated: every multiple of 500 Hz up to 286 kHz + audio rates; quick: the 10 standard ones, all <= 20 kHz and 12 sampled others; thorough: all) and random resistor triples: presses of length L-2..L+2, 10L, taps shorter than L separated by 1..3 out-of-range samples, glitches, samples exactly on the boundary, slides and noisy presses, one creeping press of 4*10^5 samples, 7*10^4 presses, one contact of 2^24 (thorough: 2^31, 2^32) samples, "
                "edge polls strict (after every sample) and sparse; distinct_nontrivial = distinct (event, rate, previous-run-length bucket, poll mode) and influence-probe (rate, region, wrapped?, noisy?) classes observed")
 
 META.update({
     "C07": {"rule": QUANT_RULE, "assumptions": COMMON + ["the shadow scale is maintained from the allow/forbid calls issued (note arguments > 11 act as 11; a forbid that would empty the scale keeps the last note of its argument) and compared with is_allowed() after every edit"]},
-    "C08": {"rule": "fresh real quantizer per conversion: all 4095 non-empty scales x {boundary grid of every half- and third-semitone point of 0..10 V +-{0,1,4,9,11,40} uV; special and out-of-range inputs incl. NaN/inf; a microvolt stride (quick: 997 uV seed-offset stride, thorough: every one of the 10,000,001 microvolt inputs)}; oracle = nearest allowed note in f64 with the one-semitone-below bucket rule and 10 uV tie band, plus monotonicity over rising inputs. distinct_nontrivial = distinct (scale, number of distinct notes reported) pairs",
+    "C08": {"rule": "fresh real quantizer per conversion (scale set up by forbidding the complement, and by four other edit routes: forbid-everything fallback, one call per note, calls naming a note twice): all 4095 non-empty scales x {boundary grid of every half- and third-semitone point of 0..10 V +-{0,1,4,9,11,40} uV; special and out-of-range inputs incl. NaN/inf; a microvolt stride (quick: 997 uV seed-offset stride, thorough: every one of the 10,000,001 microvolt inputs)}; oracle = nearest allowed note in f64 with the one-semitone-below bucket rule and 10 uV tie band, plus monotonicity over rising inputs. distinct_nontrivial = distinct (scale, number of distinct notes reported) pairs",
             "assumptions": COMMON + ["candidate notes 0..131 (octave 10 complete)", "NaN may be treated as either end of the range"]},
     "C09": {"rule": QUANT_RULE, "assumptions": COMMON + ["outside the window the expected result is what a fresh instance of the real quantizer with the same scale reports (the history-free rule itself is judged by C08)", "inputs within 2 uV of a window edge may go either way"]},
     "C19": {"rule": QUANT_RULE, "assumptions": COMMON + ["'two f32 ulps' is taken at the magnitude of the largest of |input|, |stairstep|, |fraction|", "chromatic fraction range widened by 10 uV (integer microvolt note grid)"]},
